@@ -49,6 +49,9 @@ def oracle(toks, line):
         return line == ("ok " + " ".join(map(str, vs)) if all(rep(to, v) for v in vs) else "abort")
     if op == "convblk":
         return " oracle_bad=0 " in line + " "
+    if op == "tvstore_x":
+        g = guest_of(toks[1], toks[2]); v = int(toks[4], 0)
+        return line == (f"ok guest={v}" if rep(g, v) else "abort")
     if op in ("tvstore", "tvstore_t", "cbret"):
         g = guest_of(toks[1], toks[2]); v = int(toks[3], 0)
         return line == (f"ok guest={v}" if rep(g, v) else "abort")
@@ -147,6 +150,13 @@ def run(chk):
             for v in gv:
                 for op in ("tvload", "invret", "cbarg"):
                     ops.append(f"{op} {abi} {t} {v}")
+    # (5) raw values of ANOTHER integer type stored into sandbox memory: `tainted_volatile<T> = (U)v`
+    for abi in ABIS:
+        for t in ("schar", "uchar", "short", "ushort", "int", "uint", "long", "ulong"):
+            for u in ("schar", "uchar", "short", "int", "uint", "long", "ulong", "llong"):
+                g = guest_of(abi, t); ua = TYPES[u]
+                for v in boundary_values(g, ua, rng, 6 if thorough else 1):
+                    ops.append(f"tvstore_x {abi} {t} {u} {v}")
     res = core.differential(chk, ops, binp, oracle, scope=scope, neighbours=neighbours, label="conv ops")
     # type table of the platform must be the one the model assumes
     items_in_blocks = 0
